@@ -289,6 +289,7 @@ def run(sc, choices=None):
         cfg["max_calls"] = len(frames) + 5
     if sc.get("prior"):
         cfg["prior"] = dict(sc["prior"])  # the object was used before: an earlier connection was lost mid-frame / mid-message
+    cfg["no_multithread"] = bool(sc.get("no_multithread"))
     out = run_recv(int(sc.get("seed", 1)), stream, cfg, res)
     ok = R.utf8_ok(p)
     trunc = (not ok) and _is_truncation(p)
@@ -358,6 +359,8 @@ def gen(rng):
     pr = _gen_prior(rng)
     if pr:
         sc["prior"] = pr
+    if rng.random() < 0.1:
+        sc["no_multithread"] = True  # WebSocket(enable_multithread=False): the no-op lock stand-in
     return sc
 
 
